@@ -15,3 +15,9 @@ package http
 //@   modifies Resp_written[w], Resp_status[w], Resp_body[w], os(w)
 //@   ensures written: Resp_written[w] && Resp_status[w] == 200
 //@   ensures body: Resp_body[w] == i
+
+// A decoded response is never the JSON literal null: on success the decode target is non-nil.
+//@ func httphelper.HttpRequest
+//@   requires valid(client) && valid(req)
+//@   modifies target(response)
+//@   ensures decoded: err == nil ==> tgtvalid(response)
